@@ -1,6 +1,7 @@
 //! Reference models R1-R8 for the Candid properties: plain Rust written from
 //! spec/Candid.md, with no dependency on the implementation under check.
 pub mod coerce;
+pub mod cost;
 pub mod gen;
 pub mod hash;
 pub mod leb;
